@@ -452,3 +452,102 @@ def flat_view(func: Func) -> Func:
     node.body = [s for s in node.body if not (isinstance(s, ast.FunctionDef) and s.name in nested and s.name not in used)] or [ast.Pass()]
     ast.fix_missing_locations(node)
     return dataclasses.replace(func, node=node)
+
+
+def return_expression(func_node):
+    """The value a small function returns, as ONE expression: single-definition temporaries are substituted and guard
+    clauses `if c: return v` in front of the final `return e` become `v if c else e` (nested for several).  None when the
+    body has any other statement (loops, stores to attributes, try ...)."""
+    import copy
+    body = A.body(func_node)
+    if not body or not isinstance(body[-1], ast.Return) or body[-1].value is None:
+        return None
+    e = copy.deepcopy(body[-1].value)
+    temps = {}
+    for st in reversed(body[:-1]):
+        if isinstance(st, ast.If) and not st.orelse and len(A.body(st.body)) == 1 and isinstance(A.body(st.body)[0], ast.Return) and A.body(st.body)[0].value is not None:
+            e = ast.IfExp(test=copy.deepcopy(st.test), body=copy.deepcopy(A.body(st.body)[0].value), orelse=e)
+        elif isinstance(st, ast.If) and len(A.body(st.body)) == 1 and isinstance(A.body(st.body)[0], ast.Return) and len(A.body(st.orelse)) == 1 \
+                and isinstance(A.body(st.orelse)[0], ast.Return) and st is body[-2] and False:
+            return None
+        elif isinstance(st, ast.Assign) and len(st.targets) == 1 and isinstance(st.targets[0], ast.Name):
+            name, val = st.targets[0].id, st.value
+            if sum(1 for x in body for n in ast.walk(x) if isinstance(n, ast.Name) and n.id == name and isinstance(n.ctx, ast.Store)) != 1:
+                return None
+
+            class X(ast.NodeTransformer):
+                def visit_Name(self, n):
+                    return copy.deepcopy(val) if n.id == name and isinstance(n.ctx, ast.Load) else n
+            e = X().visit(e)
+        else:
+            return None
+    return ast.fix_missing_locations(e)
+
+
+def truth_table(expr, atoms):
+    """{assignment tuple: value} of ``expr`` over every True/False assignment of the atoms (normalised source texts);
+    a value is None where booleval cannot decide."""
+    import itertools
+
+    from . import booleval
+    out = {}
+    for vals in itertools.product((True, False), repeat=len(atoms)):
+        r = booleval.ev(expr, dict(zip(atoms, vals)))
+        out[vals] = None if r is None else bool(r)
+    return out
+
+
+def specialise(stmts, env):
+    """The statements with every `if` / conditional expression whose test booleval decides under ``env`` (normalised test text ->
+    truth value) replaced by the branch taken - the code as it runs in that case.  Undecided tests are kept."""
+    import copy
+
+    from . import booleval
+
+    class F(ast.NodeTransformer):
+        def visit_If(self, n):
+            t = booleval.ev(n.test, env)
+            if t is None:
+                return self.generic_visit(n)
+            out = []
+            for x in (n.body if t else n.orelse):
+                r = self.visit(x)
+                out.extend(r if isinstance(r, list) else [r])
+            return out
+
+        def visit_IfExp(self, n):
+            t = booleval.ev(n.test, env)
+            if t is None:
+                return self.generic_visit(n)
+            return self.visit(n.body if t else n.orelse)
+
+        def visit_FunctionDef(self, n):
+            return n
+        visit_AsyncFunctionDef = visit_FunctionDef
+    out = []
+    for x in copy.deepcopy(list(stmts)):
+        r = F().visit(x)
+        out.extend(r if isinstance(r, list) else [r])
+    return [x for x in out if x is not None]
+
+
+def straight_line_value(stmts, expr, depth: int = 8):
+    """``expr`` (evaluated after the straight-line statements ``stmts``) with local names replaced by their last plain
+    assignment before the point of use - for code already specialised to one case (no branches left on the way)."""
+    import copy
+    flat = [s for s in stmts]
+
+    def at(i, e, d):
+        class X(ast.NodeTransformer):
+            def visit_Name(self, n):
+                if not isinstance(n.ctx, ast.Load) or d <= 0:
+                    return n
+                for j in range(i - 1, -1, -1):
+                    st = flat[j]
+                    if isinstance(st, ast.Assign) and len(st.targets) == 1 and isinstance(st.targets[0], ast.Name) and st.targets[0].id == n.id:
+                        return at(j, copy.deepcopy(st.value), d - 1)
+                    if any(isinstance(t, ast.Name) and t.id == n.id and isinstance(t.ctx, ast.Store) for t in ast.walk(st)):
+                        return n  # bound in some other way (loop target, tuple ...): leave the name
+                return n
+        return X().visit(copy.deepcopy(e))
+    return at(len(flat), expr, depth)
